@@ -5,9 +5,9 @@ with wait actions after it finished.
 The only batch-global constructs of the code are (a) `td["done"].all()` in `_step` — modelled as the
 flag `g` of `stepG`, computed over the whole batch in `batchStep` — and (b) `IndexTables.bs`
 (`pomo_idx = row // bs`, the machine permutation of a row under the k-major multi-start layout).
-(c) `_move_to_next_machine` loops "while any row is not ready" over a shrinking index set; per row this
-is the fuelled loop `moveLoop`, and that the real batched loop equals the per-row loop is compared on
-every run (clock of every row of every batch vs the per-row model).
+(c) `_move_to_next_machine` loops "while any row is not ready" over a shrinking index set — modelled as
+`batchMoveLoop`, proved equal to the per-row loops `moveNext` (`batchMove_eq_moveNext`); the real loop
+is compared with the per-row model on every run (clock of every row of every batch).
 
 What is batch-dependent *by construction*: the reward is written, and the mask refreshed or not, at the
 step where `done.all()` becomes true.  Theorems: the masks of all states in which the row still acts,
@@ -152,5 +152,133 @@ example : (apply one (reset one) 0).done = true := by decide
 example : Run envM one (stepM one (reset one) 0) [1, 1] (exec envM one (stepM one (reset one) 0) [1, 1]) :=
   Run.cons (by decide) (by decide) (Run.cons (by decide) (by decide) (Run.nil _))
 example : (stepG one (exec envM one (stepM one (reset one) 0) [1, 1]) 1 true).reward = some (-1) := by decide
+
+
+/-! ### The batched `while` of `_move_to_next_machine` is the per-row loop
+
+`_move_to_next_machine` keeps an index set `idx` of the rows that are not yet ready, applies the loop
+body to exactly those rows, and drops the rows that became ready (`idx = idx[~ready]`) until the set is
+empty.  `batchMoveLoop` models this over rows tagged with "still selected"; the theorem says every row
+ends exactly where its own loop `moveLoop` ends, independently of the other rows (and of how long they
+keep the batch looping). -/
+
+/-- one row of the batched loop: instance, state, still in `idx` -/
+abbrev MRow := Inst × State × Bool
+
+/-- loop body applied to the selected rows; rows that became ready leave `idx` -/
+def batchMoveBody (rows : List MRow) : List MRow :=
+  rows.map (fun r => if r.2.2 then (r.1, advance r.1 r.2.1, !ready r.1 (advance r.1 r.2.1)) else r)
+
+/-- `while ~ready.all()` over the shrinking index set, with global fuel -/
+def batchMoveLoop : Nat → List MRow → List MRow
+  | 0, rows => rows
+  | f + 1, rows => if rows.all (fun r => !r.2.2) then rows else batchMoveLoop f (batchMoveBody rows)
+
+/-- what the batched loop does to one row, seen in isolation -/
+def rowMove : Nat → MRow → MRow
+  | 0, r => r
+  | f + 1, r => if r.2.2 then rowMove f (r.1, advance r.1 r.2.1, !ready r.1 (advance r.1 r.2.1)) else r
+
+theorem rowMove_inactive (f : Nat) (r : MRow) (h : r.2.2 = false) : rowMove f r = r := by
+  cases f with
+  | zero => rfl
+  | succ f => simp [rowMove, h]
+
+/-- **rows do not influence each other in the batched loop** -/
+theorem batchMoveLoop_eq_map (f : Nat) (rows : List MRow) :
+    batchMoveLoop f rows = rows.map (rowMove f) := by
+  induction f generalizing rows with
+  | zero => simp [batchMoveLoop, rowMove]
+  | succ f ih =>
+    simp only [batchMoveLoop]
+    split
+    · rename_i hall
+      symm
+      rw [List.map_congr_left (g := id)]
+      · simp
+      · intro r hr
+        have := List.all_eq_true.mp hall r hr
+        exact rowMove_inactive _ r (by simpa using this)
+    · rw [ih, batchMoveBody, List.map_map]
+      apply List.map_congr_left
+      intro r _
+      by_cases hact : r.2.2 = true
+      · simp [rowMove, hact]
+      · have hf : r.2.2 = false := by simpa using hact
+        simp [rowMove, hf, rowMove_inactive]
+
+/-- a selected row runs its own `moveLoop` -/
+theorem rowMove_active (i : Inst) : ∀ (f : Nat) (s : State),
+    (rowMove f (i, s, true)).1 = i ∧ (rowMove f (i, s, true)).2.1 = moveLoop i f s := by
+  intro f
+  induction f with
+  | zero => intro s; exact ⟨rfl, rfl⟩
+  | succ f ih =>
+    intro s
+    simp only [rowMove, if_true, moveLoop]
+    by_cases hr : ready i (advance i s) = true
+    · simp [hr, rowMove_inactive]
+    · have hr' : ready i (advance i s) = false := by simpa using hr
+      simp only [hr', Bool.not_false, Bool.false_eq_true, if_false]
+      exact ih (advance i s)
+
+/-- more fuel does not change the result once the loop has stopped on a ready state -/
+theorem moveLoop_fuel_mono (i : Inst) : ∀ (f g : Nat) (s : State), f + 1 ≤ g →
+    ready i (moveLoop i (f + 1) s) = true → moveLoop i g s = moveLoop i (f + 1) s := by
+  intro f
+  induction f with
+  | zero =>
+    intro g s hg hr
+    obtain ⟨g', rfl⟩ : ∃ g', g = g' + 1 := ⟨g - 1, by omega⟩
+    simp only [moveLoop] at hr ⊢
+    by_cases h1 : ready i (advance i s) = true
+    · simp [h1]
+    · simp only [h1] at hr
+      exact absurd hr h1
+  | succ f ih =>
+    intro g s hg hr
+    obtain ⟨g', rfl⟩ : ∃ g', g = g' + 1 := ⟨g - 1, by omega⟩
+    rw [moveLoop] at hr
+    rw [moveLoop, moveLoop]
+    by_cases h1 : ready i (advance i s) = true
+    · simp [h1]
+    · simp only [h1] at hr ⊢
+      exact ih g' (advance i s) (by omega) hr
+
+/-- **`_move_to_next_machine` on a batch = `moveNext` on every row**: with the rows that are not done
+selected (`idx = idx[~done]`) and any global fuel covering each row's own fuel, the batched loop leaves
+every row in the state its own `moveNext` produces — whatever the other rows are and however long they
+keep the batch looping.  (`hready` is what `move_terminates` provides for rows of reachable states.) -/
+theorem batchMove_eq_moveNext (rows : List (Inst × State)) (F : Nat)
+    (hF : ∀ r ∈ rows, moveFuel r.1 r.2 ≤ F)
+    (hready : ∀ r ∈ rows, r.2.done = false →
+      1 ≤ moveFuel r.1 r.2 ∧ ready r.1 (moveLoop r.1 (moveFuel r.1 r.2) r.2) = true) :
+    (batchMoveLoop F (rows.map (fun r => (r.1, r.2, !r.2.done)))).map (fun r => (r.1, r.2.1)) =
+      rows.map (fun r => (r.1, moveNext r.1 r.2)) := by
+  rw [batchMoveLoop_eq_map, List.map_map, List.map_map]
+  apply List.map_congr_left
+  intro r hr
+  obtain ⟨i, s⟩ := r
+  simp only [Function.comp]
+  cases hd : s.done with
+  | true =>
+    simp [rowMove_inactive, moveNext, hd]
+  | false =>
+    obtain ⟨h1, h2⟩ := hready (i, s) hr hd
+    simp only at h1
+    obtain ⟨f, hf⟩ : ∃ f, moveFuel i s = f + 1 := ⟨moveFuel i s - 1, by omega⟩
+    have hFle := hF (i, s) hr
+    simp only at hFle h2
+    rw [hf] at h2 hFle
+    have hm := moveLoop_fuel_mono i f F s hFle h2
+    obtain ⟨e1, e2⟩ := rowMove_active i F s
+    simp only [Bool.not_false, moveNext, hd, Bool.false_eq_true, if_false]
+    rw [hf, ← hm]
+    exact Prod.ext e1 e2
+
+/-- Non-vacuity: a batch of two rows, one finished (not selected) and one selected. -/
+example : batchMoveLoop 10 [(one, apply one (reset one) 0, false), (one, reset one, true)] =
+    [(one, apply one (reset one) 0, false), (one, reset one, true)].map (rowMove 10) :=
+  batchMoveLoop_eq_map _ _
 
 end Rl4co.Ffsp
